@@ -31,9 +31,9 @@ ASSUMPTIONS = []
 BUDGET = {'quick': 40.0, 'thorough': 120.0}
 
 PREFIXES = (None, '', 'a', 'a.b')
-FORMS = (('add',), ('addname', 'a'), ('addname', 'f'), ('addname', 'a.f'), ('addname', ''), ('addfn',), ('method',),
+FORMS = (('add',), ('addname', 'a'), ('addname', 'f'), ('addname', 'a.f'), ('addname', ''), ('addfn',), ('addfn2',), ('method',),
          ('view', None), ('view', 'v'), ('view', 'a'), ('viewx', None), ('viewx', 'v'))
-HOPS = ('add', 'addname_f', 'addname_g', 'addfn', 'view', 'viewp', 'dup')
+HOPS = ('add', 'addname_f', 'addname_g', 'addfn', 'addfn2', 'view', 'viewp', 'dup')
 SHOPS = ('sadd', 'saddname', 'saddfn', 'sview', 'sviewp')      # the SAME function / view class registered again
 
 
@@ -184,6 +184,10 @@ def h_chain(ob):
         elif form[0] == 'addfn':
             inner.add_methods(_fn('g', 'T-g', is_async))
             ref[_join(*chain, 'g')] = 'T-g'
+        elif form[0] == 'addfn2':
+            inner.add_methods(_fn('g', 'T-g', is_async), _fn('k', 'T-k', is_async))
+            ref[_join(*chain, 'g')] = 'T-g'
+            ref[_join(*chain, 'k')] = 'T-k'
         elif form[0] == 'method':
             inner.add_methods(Method(_fn('g', 'T-g', is_async), name='x.y'))
             ref['x.y'] = 'T-g'
@@ -240,6 +244,11 @@ def h_history(ob):
             elif op == 'addfn':
                 reg.add_methods(_fn('g', tag, is_async))
                 ref[_join(p, 'g')] = tag
+            elif op == 'addfn2':        # several plain functions handed over in ONE add_methods call
+                reg.add_methods(_fn('g', tag, is_async), _fn('k', tag + 'k', is_async), _fn('m', tag + 'm', is_async))
+                ref[_join(p, 'g')] = tag
+                ref[_join(p, 'k')] = tag + 'k'
+                ref[_join(p, 'm')] = tag + 'm'
             elif op == 'view':
                 reg.view(_view(tag, is_async))
                 ref[_join(p, 'pub')] = tag
